@@ -934,6 +934,13 @@ class C06(Prop):
                     steps.append({"op": "calibrate"})
         if steps[-1]["op"] != "calibrate":
             steps.append({"op": "calibrate"})
+        if rng.random() < 0.35:  # the same image of some dtype / layout calibrated at every call
+            dtype = self.gen_dtype(rng)
+            dt = parse_dtype(dtype)
+            top = float(np.iinfo(dt).max) if dt.kind in "iu" else 10.0 ** rng.uniform(2, 9)
+            return {"kind": "session", "shape": shape, "dtype": dtype, "start": start, "steps": steps,
+                    "layout": rng.choice(LAYOUTS if shape else ["c", "scalar", "strided", "field", "offset"]),
+                    "data": self.gen_data(rng, dtype, size, [1.0, 10.0, 100.0], 0.5, top)}
         return {"kind": "session", "shape": shape, "conc": gen_conc(rng, size, scale), "start": start, "steps": steps}
 
     def generate(self, rng, tier):
@@ -1016,9 +1023,10 @@ class C06(Prop):
         k = 0
         for base in DATA_DTYPES:
             for order in ("<>" if np.dtype(base).itemsize > 1 else "|"):
-                counts = [12, 17, 27, 40, 0, 127] if base[0] in "iu" else [12.0, 17.0, 27.0, 40.0, None, 0.5]
+                counts = [12, 17, 27, 40, 0, 127, int(np.iinfo(base).max), int(np.iinfo(base).min)] if base[0] in "iu" \
+                    else [12.0, 17.0, 27.0, 40.0, None, 0.5, -3.0, 2.0 ** 24 + 2.0]
                 for mode in ("identity", "float", "np.float64", "fitted", "few"):
-                    shape = [[6], [2, 3], [3, 2, 1], [6], [1, 6]][k % 5]
+                    shape = [[8], [2, 4], [4, 2, 1], [8], [1, 8]][k % 5]
                     lay = LAYOUTS[:8][k % 8]
                     k += 1
                     c = {"kind": "calibrate", "shape": shape, "dtype": order + base, "layout": lay, "data": counts}
@@ -1036,6 +1044,11 @@ class C06(Prop):
         few = {"op": "refit", "rows": [[1.0, 2.0], [2.0, None]], "weighting": "1/x", "cw": None}
         fit = {"op": "refit", "rows": base, "weighting": "1/x", "cw": None}
         cal = {"op": "calibrate"}
+        for j, dtype in enumerate(["<u2", ">i4", "<f4", ">u8", "|u1", "<i8"]):
+            yield {"kind": "session", "shape": [2, 2], "dtype": dtype, "layout": LAYOUTS[j], "data": [12, 17, 27, 40],
+                   "start": [None, {"g": 40.0, "c": 12.0}][j % 2], "steps": [
+                       cal, {"op": "refit", **std}, cal, few, cal, {"op": "assign", "g": 40.0, "c": 12.0}, cal, cal,
+                       {"op": "assign", "g": 1.0, "c": 0.0}, cal]}
         for shape in ([], [3]):
             conc = [0.0, 2.0, None][:int(np.prod(shape)) if shape else 1]
             for start in (None, {"g": 2.0, "c": 3.0}, {"g": 1.0 + 1e-7, "c": 1e-9}):
@@ -1367,13 +1380,28 @@ class C06(Prop):
         from pewlib.calibration import Calibration
 
         shape, start = case["shape"], case["start"]
-        conc = np.array([nan(v) for v in case["conc"]], dtype=np.float64).reshape(shape)
-        concs = [orat(float(v)) for v in conc.ravel()]
+        if "data" in case or "dtype" in case:
+            conc, concs = None, None
+        else:
+            conc = np.array([nan(v) for v in case["conc"]], dtype=np.float64).reshape(shape)
+            concs = [orat(float(v)) for v in conc.ravel()]
         trivial = outcome({}, {}, {}, hyp=False, features=[], note="session not judged (degenerate line / malformed)")
         ok_num = lambda v: isinstance(v, (int, float)) and math.isfinite(v)
         if start is not None and not (ok_num(start["g"]) and ok_num(start["c"]) and start["g"] != 0):
             return trivial
         impl_steps, drv_steps, resps, via = [], [], [], []
+        # a session on a data array of some image dtype: the same image is calibrated at every call (the calibration
+        # changes, the image does not); specified by the formula on the image's own elements (see `build_data`)
+        data_mode = "data" in case or "dtype" in case
+        dt = exact = None
+        if data_mode:
+            built = build_data(case)
+            if built is None or any(isinstance(v, float) and math.isinf(v) for v in built[2]):
+                return trivial
+            dt, _, exact = built
+            exact_r = [None if (isinstance(v, float) and v != v) else core.rat(v) for v in exact]
+            if start is not None:
+                start = {"g": float(start["g"]), "c": float(start["c"])}
         with warnings.catch_warnings():
             warnings.simplefilter("ignore")
             cal = Calibration() if start is None else Calibration(intercept=start["c"], gradient=start["g"])
@@ -1382,7 +1410,7 @@ class C06(Prop):
                 if st["op"] == "assign":
                     if not (ok_num(st["g"]) and ok_num(st["c"])) or st["g"] == 0:
                         break
-                    cal.gradient, cal.intercept = st["g"], st["c"]
+                    cal.gradient, cal.intercept = (float(st["g"]), float(st["c"])) if data_mode else (st["g"], st["c"])
                     how = "assign"
                     drv_steps.append({"op": "assign", "g": core.rat(st["g"]), "c": core.rat(st["c"])})
                     impl_steps.append({"line": [float(cal.gradient), float(cal.intercept)]})
@@ -1408,6 +1436,23 @@ class C06(Prop):
                     impl_steps.append({"line": None if obs is None else [float(g), float(c)]})
                     if obs is None or float(g) == 0.0:  # not a usable line (inside the hypothesis the fit cases report it)
                         break
+                elif st["op"] == "calibrate" and data_mode:
+                    g, c = float(cal.gradient), float(cal.intercept)
+                    if dt.kind == "f" and dt.itemsize == 4 and not (g == 1.0 and c == 0.0):
+                        mags = [abs(g), abs(c), abs(c / g)] + [abs(v) for v in exact if v == v] + \
+                               [abs((v - c) / g) for v in exact if v == v]
+                        if max(mags) > F4_MAX or abs(g) < 1.0 / F4_MAX:
+                            break  # binary32 arithmetic may overflow: what was judged before stays judged
+                    try:
+                        with np.errstate(all="ignore"):
+                            out = cal.calibrate(build_data(case)[1])
+                        impl_steps.append(observe_data(exact, out))
+                    except Exception as e:
+                        impl_steps.append({"raises": type(e).__name__, "msg": str(e)[:200]})
+                    drv_steps.append({"op": "calibrate", "responses": exact_r, "concentrations": None})
+                    resps.append(None)
+                    via.append(how)
+                    how = "same-line"
                 elif st["op"] == "calibrate":
                     g, c = float(cal.gradient), float(cal.intercept)
                     with np.errstate(all="ignore"):
@@ -1433,6 +1478,8 @@ class C06(Prop):
         model_steps, spec_steps = [], []
         m_ok = s_ok = True
         feats, k, prev = {"session", f"ndim{len(shape)}"}, 0, None
+        if data_mode:
+            feats |= {"session:data-array"} | data_features(dt, case.get("layout", "c"), shape, exact)
         for got, r in zip(impl_steps, rep):
             g, c = unrat(r["gradient"]), unrat(r["intercept"])
             if r["op"] != "calibrate":
@@ -1454,6 +1501,9 @@ class C06(Prop):
             spec_steps.append(spec)
             if "raises" in got:
                 m_ok = s_ok = False
+            elif data_mode:
+                a, b = judge_data(got, model, spec, shape, float(g), float(c), dt, g == 1 and c == 0)
+                m_ok, s_ok = m_ok and a, s_ok and b
             else:
                 a, b = judge_calibrate(got, model, spec, shape, resps[k], float(g), float(c))
                 m_ok, s_ok = m_ok and a, s_ok and b
@@ -1475,7 +1525,7 @@ class C06(Prop):
                     yield {**case, "steps": steps[:k] + steps[k + 1:]}
                 if case["start"] is not None:
                     yield {**case, "start": None}
-            if "data" in case:
+            if "data" in case and isinstance(case.get("shape"), list):
                 if len(case["shape"]) > 1 or (case["shape"] and case["shape"][0] > 1):
                     for i in range(len(case["data"])):
                         yield {**case, "shape": [1], "data": case["data"][i:i + 1]}
